@@ -88,8 +88,13 @@ def add_conn_batch(base_batches, pid, n_quick=60, n_thorough=900):
                 c = dsgcase.gen_sel(rng, max_nodes=6, max_choices=2, n_incompat=0)
                 if not dsgcase.guards(c):
                     break
-            c = conndrive.add_connection(rng, c, n_choices=2 if i % 3 == 2 else 1, group_prob=0.0 if i % 4 else 0.25,
-                                         permanent_only=(i % 2 == 0))
+            if i % 6 == 5:
+                # two (sometimes three) connection choices with a few valid connection sets each, active together
+                c = conndrive.add_connection(rng, c, n_choices=rng.choice([2, 2, 3]), group_prob=0.0,
+                                             permanent_only=rng.random() < 0.7, small=True)
+            else:
+                c = conndrive.add_connection(rng, c, n_choices=2 if i % 3 == 2 else 1, group_prob=0.0 if i % 4 else 0.25,
+                                             permanent_only=(i % 2 == 0))
             c['_i'] = i
             c['_proc'] = True
             pc.append(c)
@@ -97,14 +102,14 @@ def add_conn_batch(base_batches, pid, n_quick=60, n_thorough=900):
     return batches
 
 
-def wrap_run_case(run_case, conn_clauses):
+def wrap_run_case(run_case, conn_clauses, focus=None):
     import conndrive
 
     def run(case):
         if not case.get('_proc'):
             return run_case(case)
         c = {k: v for k, v in case.items() if not k.startswith('_')}
-        r = conndrive.explore_processor(c, seed=case.get('_i', 0))
+        r = conndrive.explore_processor(c, seed=case.get('_i', 0), focus=focus)
         f = r.get('fail')
         if f is not None and f.get('clause') != 'model-error' and not any(f['clause'].startswith(p) for p in conn_clauses):
             r = dict(r)
